@@ -307,6 +307,8 @@ def inline_adjacent_temps(func, log=None):
                 return True
             if isinstance(x, ast.Attribute) and isinstance(x.ctx, ast.Load):
                 continue        # a plain attribute / method lookup (its operand was checked before it)
+            if isinstance(x, (ast.Tuple, ast.List)):
+                continue        # a display of already-checked elements
             if not isinstance(x, (ast.Name, ast.Constant)):
                 return False
         return False
